@@ -210,6 +210,39 @@ def run(ctx):
         if a[0] != 'ok' or a[1] != KNOWN_WITNESSES[k][2]:
             viol.append({'id': k, 'why': 'expansion differs from C', 'source': src, 'defines': defs,
                          'expected': KNOWN_WITNESSES[k][2], 'got': a[:2]})
+    # -D NAME[=VALUE] given to the COMPILER (compile(): the option text is split there, not in cpp.rs)
+    # must behave exactly like "#define NAME VALUE" at the top of the file
+    dsrcs = {}
+    dvars = {}
+    for i in range(120 if quick else 3000):
+        init = rng.choice(['i=5', 'i = j', 'i+=2', 'i=j==3', 'i = (j<=2)', 'i=1'])
+        cond = rng.choice(['j==5', 'i<=j', 'i!=0', 'j>=2', '(i&1)==0', 'i', 'i == j'])
+        val = rng.choice(['7', '(3+4)', '0x10', '1==1', '2 >= 3'])
+        flag = rng.random() < 0.5
+        body = 'unsigned char i, j, k;\nvoid main() { INIT; if (COND) j = VAL;\n#ifdef FLAG\n k = 1;\n#else\n k = 2;\n#endif\n}\n'
+        defs = [('INIT', init), ('COND', cond), ('VAL', val)] + ([('FLAG', None)] if flag else [])
+        rng.shuffle(defs)
+        top = ''.join('#define %s%s\n' % (n_, '' if v_ is None else ' ' + v_) for n_, v_ in defs)
+        dargs = []
+        for n_, v_ in defs:
+            dargs += ['-D', n_ if v_ is None else '%s=%s' % (n_, v_)]
+        dsrcs['d%d' % i] = {'def': top + body, 'opt': body}
+        dvars['d%d' % i] = dargs
+    dashd = 0
+    jobs = []
+    for pid, sv in dsrcs.items():
+        jobs.append(compile_job(pid + '@def', sv['def'], args=['-O0'], want=['vars', 'funcs']))
+        jobs.append(compile_job(pid + '@opt', sv['opt'], args=['-O0'] + dvars[pid], want=['vars', 'funcs']))
+    dres = run_ccv(''.join(jobs), tag='dashd')
+    for k_, pid in enumerate(dsrcs):
+        a, b = dres[2 * k_], dres[2 * k_ + 1]
+        dashd += 1
+        fa = (a.get('status'), [(f['name'], f.get('gen')) for f in a.get('funcs', [])] if a.get('status') == 'ok' else (a.get('err') or {}).get('msg'))
+        fb = (b.get('status'), [(f['name'], f.get('gen')) for f in b.get('funcs', [])] if b.get('status') == 'ok' else (b.get('err') or {}).get('msg'))
+        if fa != fb:
+            viol.append({'id': pid, 'why': '-D options do not behave like the same #define lines at the top of the file',
+                         'options': dvars[pid], 'with_define_lines': dsrcs[pid]['def'], 'define_result': str(fa)[:600], 'option_result': str(fb)[:600]})
+    ctx.cov['correspondence']['corr-S -D vs #define (through compile())'] = {'pairs': dashd}
     ctx.cov['distinct_nontrivial'] = uses_checked
     ctx.cov['correspondence']['corr-M cpp::process'] = {'cases': n, 'mismatches': len(mism)}
     ctx.cov['correspondence']['corr-S reference expander'] = {'macro_programs': len(mc), 'use_sites_checked': uses_checked, 'violations': len(viol)}
